@@ -1735,7 +1735,7 @@ mutual
     | .ret e => sound_ret e (eval_sound e)
     | .delExt m p h c => sound_delExt m p h c (eval_sound c)
     | .delVar n p h c => sound_excluded _ .delTyping (by decide) (fun T => by rw [checks]; simp)
-    | .delExpr e p h c => sound_excluded _ .outOfModel (by decide) (fun T => by rw [checks]; simp)
+    | .delExpr e p h c => sound_excluded _ .delTyping (by decide) (fun T => by rw [checks]; simp)
     | .existsExt m p => sound_existsExt m p
     | .existsVar n p => sound_existsVar n p
     | .existsExpr e p => sound_existsExpr e p (eval_sound e)
